@@ -146,6 +146,19 @@ def stage_status_never_redirect(ctx):
     return goals
 
 
+def version_from_load(ctx):
+    """C07 (and the claim CAS of C04): the version a store presents to the optimistic guard is the one the row had when
+    the written object was loaded, advanced only by this object's own successful stores -- never a version copied from
+    another read, which would turn the guard into a blind overwrite."""
+    goals = []
+    n = 0
+    for e, g in T.flat(ctx.st.effects):
+        if e.kind in ("store_stage", "standalone") and "ver_presented" in e.data:
+            goals.append((f"store{n}", z3.Implies(g, e.data["ver_presented"] == e.data["ver_legit"])))
+            n += 1
+    return goals
+
+
 def only_marks_when(guard_false):
     """Re-entrancy guard: on paths where `guard_false(ctx)` may hold there is no store, push, event or execution --
     stated contrapositively: if the path has such an effect, the guard is true."""
